@@ -4,6 +4,7 @@ import numpy as np
 from ..common import (mellon, bits, unbits, cov_to_mellon, cov_tokens, cov_depth, cov_str, gen_cov, gen_ad,
                       gen_points, loguniform, LEAVES, STATIONARY, ad_indices, rel_err, totuple, fbit)
 from .. import covoracle as co
+from .. import gradoracle as go
 
 RULE = ("cases = (kernel expression tree, point sets X, Y); generated from the Cov grammar (6 kernels, 5 operators, "
         "6 active_dims forms) x structured point sets (plain/clustered/near-duplicate/anisotropic, coincident rows, "
@@ -60,7 +61,7 @@ def case_cov(ctx, res, p):
         return
     nontrivial = bool(np.any((K != 0) & (K != 1)))
     res.case(("cov", cov_str(tree), X.tobytes(), Y.tobytes()), nontrivial, sample)
-    lo, hi = co.interval(tree, X, Y)
+    lo, hi = go.value_interval(tree, X, Y)
     # --- property oracle 1: documented closed form / algebra / active dims
     ok = co.inside(K, lo, hi)
     if not np.all(ok):
@@ -84,7 +85,7 @@ def case_cov(ctx, res, p):
                                       "model_inside": bool(np.all(okm))})
     # --- property oracle 2: symmetry, range, self covariance, diag, PSD, inactive dims (X against itself)
     Kxx, _ = impl_cov(tree, X, X)
-    lo2, hi2 = co.interval(tree, X, X)
+    lo2, hi2 = go.value_interval(tree, X, X)
     w2 = (hi2 - lo2) + 1e-13 * np.maximum(np.abs(hi2), np.abs(lo2))
     if np.any(np.abs(Kxx - Kxx.T) > np.maximum(w2, w2.T) + 1e-300):
         res.oracle_fail("cov(X, X) is not symmetric", p, signature="C05:symmetry")
@@ -176,7 +177,7 @@ def gen_case(rng, stream, depth, d=None, tree=None):
             Y[j] = X[i] + (0 if rng.random() < 0.5 else 1e-7 * rng.normal(size=d))
         ls_range = (0.01, 100.0)
     if tree is None:
-        tree = gen_cov(rng, d, depth, ls_range=ls_range)
+        tree = gen_cov(rng, d, depth, ls_range=ls_range, nat_pow_prob=0.3)
     return {"op": "cov", "tree": tree, "X": X, "Y": Y, "stream": stream}
 
 
@@ -208,12 +209,16 @@ def run(ctx, res):
         if op in ("ADD", "MUL"):
             tree = (op, mk(kl), mk(kr), ad)
         elif op == "POW":
-            if kl == "LIN":
-                continue
-            tree = (op, mk(kl), loguniform(rng, 0.1, 10), ad)
+            # a Linear base takes either sign: natural-number exponents only (u^p is not real for u < 0 otherwise)
+            tree = (op, mk(kl), float(rng.integers(1, 5)) if kl == "LIN" else loguniform(rng, 0.1, 10), ad)
         else:
             tree = (op, mk(kl), loguniform(rng, 0.01, 10), ad)
         run_case(ctx, res, gen_case(rng, "sharp", 1, d=d, tree=tree))
+    for pw in (1.0, 2.0, 3.0, 4.0):
+        d = 3
+        lin = ("LIN", loguniform(rng, 0.5, 5.0), ("AN",))
+        for base in (lin, ("ADDC", lin, 0.1, ("AN",)), ("MUL", lin, ("M52", 1.5, ("AN",)), ("AN",))):
+            run_case(ctx, res, gen_case(rng, "sharp", 1, d=d, tree=("POW", base, pw, gen_ad(rng, d))))
     for kind in ["M32", "M52", "EQ", "EX", "LIN"]:
         d = 3
         X, _ = gen_points(rng, 4, d, kind="plain")
